@@ -184,6 +184,13 @@ impl Simplifier {
             }) => self.simplify_prefix(*operator, expression.clone(), limit - 1),
         };
 
+        // A rule can return a child of a subexpression that was left as is because we ran out of
+        // gas, and that child may be a bare `pi`; uphold the invariant in that case too.
+        let result = match result.as_ref() {
+            Expression::PiConstant() => ArcIntern::new(Expression::Number(PI)),
+            _ => result,
+        };
+
         self.simplify_cache.insert(e, result.clone());
 
         result
